@@ -37,7 +37,22 @@ def main():
         try:
             ov = overlay_from_patch(d + "patch.diff", work)
             if ov is None:
+                # the tree moved on (a later fix rewrote the code): judge the seed on a scratch worktree at its base commit
+                base = meta.get("confirmed", {}).get("base_commit")
                 res = {"status": "patch-does-not-apply-to-current-tree", "rules": []}
+                if base:
+                    scr = "/tmp/mrepo"
+                    subprocess.run("git -C /repo worktree prune; [ -d %s ] || git -C /repo worktree add -q --detach %s HEAD" % (scr, scr), shell=True)
+                    subprocess.run("git -C %s checkout -q --detach %s && git -C %s checkout -q -- . && git -C %s clean -fdq" % (scr, base, scr, scr), shell=True)
+                    a = subprocess.run(["git", "-C", scr, "apply", d + "patch.diff"], capture_output=True, text=True)
+                    if a.returncode == 0:
+                        os.makedirs(work + "/v/evidence")
+                        shutil.copy(ROOT + "/known_findings.json", work + "/v")
+                        r = subprocess.run([ROOT + "/bin/origamilint", "-prop", prop, "-tier", "quick", "-repo", scr, "-verif", work + "/v"], capture_output=True, text=True)
+                        out = r.stdout + r.stderr
+                        rules = sorted(set(re.findall(r'rule=(\S+)', "\n".join(l for l in out.splitlines() if "rule=" in l and "KNOWN-FINDING" not in l))))
+                        res = {"status": ("detected" if r.returncode == 1 and rules else "missed") + "@" + base, "rules": rules}
+                    subprocess.run("git -C %s checkout -q -- . && git -C %s clean -fdq && git -C %s checkout -q --detach $(git -C /repo rev-parse HEAD)" % (scr, scr, scr), shell=True)
             else:
                 os.makedirs(work + "/v/evidence")
                 shutil.copy(ROOT + "/known_findings.json", work + "/v")
